@@ -75,6 +75,7 @@ m.verify()
 def run_history(rac, ops, follow=True):
     w, orc = G.World(), G.Oracle()
     done = []
+    k1_seen = False
     for op in ops:
         if not G.legal(orc, op):
             return False
@@ -90,7 +91,10 @@ def run_history(rac, ops, follow=True):
                 return True
             w.m.verify()
             # a removed definition no longer acts: right after a replacement the data are what the surviving definitions give
-            if op[0] in ("val", "expr", "unreg") and not (orc.sibling_feed() or G.declared_cycle(w.m)):
+            # (once a declared ordering cycle -- known finding K1 of C01 -- has occurred in the history a dependant may have been
+            #  left stale by it: the values are no longer attributable to removed definitions)
+            k1_seen = k1_seen or w.k1_seen or bool(orc.sibling_feed() or G.declared_cycle(w.m))
+            if op[0] in ("val", "expr", "unreg") and not k1_seen:
                 exp, act = orc.expected(), w.actual()
                 badv = [(G.locstr(l), act[l], exp[l]) for l in G.LOCS if not G.close(exp[l], act[l])]
                 if badv:
@@ -132,7 +136,7 @@ def run_history(rac, ops, follow=True):
             rac.fail("queries " + hist, f"C03 [{hist}]: query answers for {k} differ from a fresh manager: {qa[k]} vs {qb[k]}",
                      G.history_script(done, IDX_TAIL), "Manager.unregister")
         for fop in FOLLOW:
-            if fop[1] in orc.defs or G.declared_cycle(w.m):
+            if fop[1] in orc.defs or w.k1_seen or G.declared_cycle(w.m):
                 continue        # (a declared ordering cycle = known finding K1 of C01: the order inside it is arbitrary in both managers)
             w.apply(fop)
             w2.apply(fop)
